@@ -5,8 +5,8 @@
    LinearOperatorMatrix.operator_norm on squares).  Executed on exact rationals and compared with the implementation by
    harness/props/C19.py on every run.  The estimate returned by the code is sqrt(q); all statements are on squares.
 
-   Not attempted: convergence of the estimates to the norm for generic start vectors (a spectral argument).  The sum-of-squares bound is proved for the 1x2 layout and the
-   vertical rule for any number of rows (general r x c grids: not proved, hence the suffix _partial). *)
+   Not attempted: convergence of the estimates to the norm for generic start vectors (a spectral argument).  The sum-of-squares bound |M x|^2 <= (sum_ij n_ij^2) |x|^2 is
+   proved for every r x c layout (C19_sum_of_squares_bound), the vertical rule for any number of rows. *)
 From Coq Require Import List Bool Arith Field Reals.
 Import ListNotations.
 From MrVerif Require Import Model.CG Model.PowerIter Proofs.CGProofs Proofs.PowerIterProofs.
@@ -64,11 +64,18 @@ Theorem C19_vertical_rule_is_sum : forall a b c, matrix_norm_sq R 0%R Rplus Rmax
 Proof. intros. split; reflexivity. Qed.
 Print Assumptions C19_vertical_rule_is_sum.
 
-(* a combination rule that is a bound for [A B]: |A x1 + B x2|^2 <= (a^2 + b^2)(|x1|^2 + |x2|^2) *)
-Theorem C19_sum_of_squares_bound_partial : forall u v a2 b2 X1 X2, (0 <= a2 -> 0 <= b2 -> 0 <= X1 -> 0 <= X2 ->
+(* a combination rule that IS a bound, first for the block row [A B]: |A x1 + B x2|^2 <= (a^2 + b^2)(|x1|^2 + |x2|^2) *)
+Theorem C19_two_block_bound : forall u v a2 b2 X1 X2, (0 <= a2 -> 0 <= b2 -> 0 <= X1 -> 0 <= X2 ->
   dotR u u <= a2 * X1 -> dotR v v <= b2 * X2 -> dotR (vaddR u v) (vaddR u v) <= (a2 + b2) * (X1 + X2))%R.
 Proof. exact horizontal_sum_of_squares_bound. Qed.
-Print Assumptions C19_sum_of_squares_bound_partial.
+Print Assumptions C19_two_block_bound.
+
+(* ... and for every r x c layout: grid = rows of (operator A_ij, bound n_ij^2) with n_ij^2 >= 0 and |A_ij x|^2 <= n_ij^2 |x|^2 for all x;
+   the input is the list of parts x_j; row i of the output is sum_j A_ij x_j; |M x|^2 = sum_i |row_i|^2 <= (sum_ij n_ij^2) sum_j |x_j|^2 *)
+Theorem C19_sum_of_squares_bound : forall (grid : list (list block)), Forall (Forall norm_ok) grid ->
+  forall xs : list (list R), (apply_grid_sq grid xs <= sum_of_squares grid * sqnorms xs)%R.
+Proof. exact grid_sum_of_squares_bound. Qed.
+Print Assumptions C19_sum_of_squares_bound.
 
 (* ---- non-vacuity: runs of the executed instance ---- *)
 From Coq Require Import QArith.
